@@ -485,8 +485,8 @@ def run(ctx):
     built = ctx.build("C15", deps=["Model/Clockwork.v"])
     quick = ctx.tier == "quick"
     size = 4 if quick else 6
-    plan = [("natural", 160 if quick else 2000), ("tight", 70 if quick else 800), ("ties", 60 if quick else 600),
-            ("adversarial", 50 if quick else 500), ("load", 40 if quick else 300), ("sim", 20 if quick else 200)]
+    plan = [("natural", 130 if quick else 2000), ("tight", 60 if quick else 800), ("ties", 50 if quick else 600),
+            ("adversarial", 45 if quick else 500), ("load", 30 if quick else 300), ("sim", 15 if quick else 200)]
     ctx.rules.append(RULE % size)
     dist_all = {}
     for mode, n in plan:
